@@ -310,6 +310,8 @@ def cmd_tests(args):
 
 
 RUNS = 150
+ALL_PROPS = False
+SKIP_FILES = ("osm/osm_roadnetwork.py", "dispatch_ops.py")   # logging of missing attributes; pooling only (unreachable)
 
 
 def stage_b(m):
@@ -321,7 +323,9 @@ def stage_b(m):
         apply(m, root)
         env = dict(os.environ, PYTHONHASHSEED="0", PYTHONPATH=root + os.pathsep + VERIF, HIVESIM_REPO=root, HIVESIM_OUT_DIR=os.path.join(root, "out"),
                    HIVESIM_TMP=os.path.join(root, "tmp"), HIVESIM_NO_CORPUS="1", PYTHONDONTWRITEBYTECODE="1")
-        props = list(m["props"]) + [p for p in ENGINE_ORDER if p not in m["props"]]
+        # the properties that speak about this file first; the others only on request (--all-props): a mutant that survives the
+        # checks written for its own file has practically never been caught by an unrelated one, and survivors cost the most
+        props = list(m["props"]) + ([p for p in ENGINE_ORDER if p not in m["props"]] if ALL_PROPS else [])
         t0 = time.time()
         try:
             r = subprocess.run([PY, "-m", "hivesim", "scan", ",".join(props), "--runs", str(RUNS)], cwd=VERIF, env=env, capture_output=True, text=True, timeout=3000)
@@ -348,10 +352,12 @@ def stage_b(m):
 
 
 def cmd_scan(args):
-    global RUNS
+    global RUNS, ALL_PROPS
     RUNS = args.runs
+    ALL_PROPS = args.all_props
     a = {r["id"]: r for r in load("stageA.jsonl")}
     ms = [m for m in load("mutants.jsonl") if a.get(m["id"], {}).get("a") == "survived_tests"]
+    ms = [m for m in ms if not m["file"].endswith(SKIP_FILES)]
     if args.only:
         ms = [m for m in ms if args.only in m["file"]]
     if args.limit:
@@ -397,5 +403,6 @@ if __name__ == "__main__":
     ap.add_argument("-j", "--jobs", type=int, default=None)
     ap.add_argument("--runs", type=int, default=150)
     ap.add_argument("--only", default=None)
+    ap.add_argument("--all-props", action="store_true")
     a = ap.parse_args()
     {"gen": cmd_gen, "tests": cmd_tests, "scan": cmd_scan, "report": cmd_report}[a.cmd](a)
